@@ -395,6 +395,81 @@ static void f_ecdsa(Tape &t)
 	unpoison(x.data(), x.size());
 }
 
+// The server's key-exchange step as the handshake code runs it: the do_keyx method of the policy installed by
+// br_ssl_server_set_single_ec (static ECDH: client point times the server's private key, shared X moved to the
+// front of the buffer) and br_ssl_server_set_single_rsa (premaster decryption), with a valid or invalid client value.
+// Secret: the private key, hence the shared secret / the padding verdict; public: the client's value and lengths.
+static void f_server_keyx(Tape &t)
+{
+	br_ssl_server_context sc;
+	br_ssl_server_zero(&sc);
+	br_x509_certificate nochain = { nullptr, 0 };
+	if (t.u8() % 3 != 0) {
+		auto &v = ec_impls();
+		std::vector<const EcImpl *> nist;
+		for (auto &e : v) if (e.impl->supported_curves & (1u << BR_EC_secp256r1)) nist.push_back(&e);
+		static const EcImpl all15 = { "all_m15", &br_ec_all_m15 }, all31 = { "all_m31", &br_ec_all_m31 };
+		nist.push_back(&all15); nist.push_back(&all31);
+		const EcImpl &im = *nist[t.u8() % nist.size()];
+		std::vector<int> curves;
+		for (int c : { BR_EC_secp256r1, BR_EC_secp384r1, BR_EC_secp521r1 }) if ((im.impl->supported_curves >> c) & 1) curves.push_back(c);
+		int curve = curves[t.u8() % curves.size()];
+		Bytes x = ec_scalar(t, im.impl, curve);
+		br_ec_private_key sk = { curve, x.data(), x.size() };
+		br_ssl_server_set_single_ec(&sc, &nochain, 1, &sk, BR_KEYTYPE_KEYX | BR_KEYTYPE_SIGN, BR_KEYTYPE_EC, im.impl, br_ecdsa_i31_sign_asn1);
+		const br_ssl_server_policy_class **pctx = &sc.chain_handler.single_ec.vtable;
+		// client point: the generator times a public scalar; invalid variants: off the curve, wrong length
+		size_t gl;
+		const unsigned char *G = im.impl->generator(curve, &gl);
+		Bytes P(G, G + gl), y = ec_scalar(t, im.impl, curve);
+		im.impl->mul(P.data(), gl, y.data(), y.size(), curve);
+		unsigned bad = t.u8() % 4;
+		if (bad == 1) P[gl / 2] ^= 0x10;
+		Bytes data(200, 0);
+		size_t len = gl;
+		if (bad == 2) len = gl - 1;
+		memcpy(data.data(), P.data(), len);
+		std::string what = fmt("server static-ECDH key exchange (single_ec policy, %s, curve %d), client point %s", im.name, curve, bad == 1 ? "not on the curve" : bad == 2 ? "one byte short" : "valid");
+		Scope s(what);
+		poison(x.data(), x.size());
+		uint32_t r = (*pctx)->do_keyx(pctx, data.data(), &len);
+		(void)declass(r);
+		size_t l2 = declass(len);
+		VF_CHECK(!tainted(&len, sizeof len) || !RUNNING_ON_VALGRIND, "%s: the LENGTH of the shared secret depends on the secret", what.c_str());
+		s.done(data.data(), bad ? 0 : l2);
+		unpoison(x.data(), x.size());
+		unpoison(data.data(), data.size());
+	} else {
+		RsaSk &k = rsa_key(t, false);
+		static const br_rsa_private CORES[] = { br_rsa_i15_private, br_rsa_i31_private, br_rsa_i32_private, br_rsa_i62_private };
+		unsigned ci = t.u8() % 4;
+		br_ssl_server_set_single_rsa(&sc, &nochain, 1, &k.sk, BR_KEYTYPE_KEYX | BR_KEYTYPE_SIGN, CORES[ci], br_rsa_i31_pkcs1_sign);
+		const br_ssl_server_policy_class **pctx = &sc.chain_handler.single_rsa.vtable;
+		size_t nl = k.n.size();
+		Bytes em(nl, 0);
+		em[1] = 2;
+		for (size_t i = 2; i < nl - 49; i++) em[i] = (uint8_t)(1 + t.u8() % 255);
+		em[nl - 48] = 3; em[nl - 47] = 3;
+		for (size_t i = nl - 46; i < nl; i++) em[i] = t.u8();
+		unsigned bad = t.u8() % 5;
+		if (bad == 1) em[1] = 1;
+		if (bad == 2) em[nl - 49] = 7;
+		if (bad == 3) em[2 + t.u8() % (nl - 51)] = 0;
+		if (bad == 4) em[0] = 1;
+		Bytes c = em;
+		VF_CHECK(br_rsa_i31_public(c.data(), c.size(), &k.pk) == 1 || bad == 4, "harness: public operation failed");
+		std::string what = fmt("server RSA key exchange (single_rsa policy, core %u, %u bits), padding %s", ci, k.bits, bad ? "invalid" : "valid");
+		size_t len = nl;
+		Scope s(what);
+		poison_key(k);
+		uint32_t r = (*pctx)->do_keyx(pctx, c.data(), &len);
+		(void)declass(r);
+		s.done(c.data(), 48);
+		unpoison_key(k);
+		unpoison(c.data(), c.size());
+	}
+}
+
 static void f_symmetric(Tape &t, bool control)
 {
 	unsigned which = t.u8() % (control ? 3 : 10);
@@ -667,7 +742,7 @@ void target_run(Tape &t)
 	case 8: f_stream_mac(t); break;
 	case 9: f_aead(t, false); break;
 	case 10: f_record(t); break;
-	default: if (t.flag()) f_symmetric(t, true); else f_aead(t, true); break;
+	default: { unsigned w = t.u8() % 4; if (w == 1) f_symmetric(t, true); else if (w == 0) f_aead(t, true); else f_server_keyx(t); break; }
 	}
 	stats.notes["declassifications"] = fmt("%llu BR_VERIF_PUBLIC marks executed", (unsigned long long)g_declass);
 }
@@ -682,6 +757,20 @@ void target_enum(int shard, int nshards)
 	for (uint8_t w = 0; w < 3; w++) enum_tape({ 11, 1, w, 1, 2, 3, 4, 5, 6, 7, 8 });
 	enum_tape({ 11, 0, 0, 9, 9, 9, 9 });
 	emit({ 0, 1, 2, 3, 4, 0, 0, 0 });
+	// server key exchange through the policy handlers: every EC implementation with NIST curves x curve x {valid, off-curve, short}; every RSA core x {valid, 4 invalid forms}
+	for (uint8_t im = 0; im < 8; im++) for (uint8_t cv = 0; cv < 3; cv++) for (uint8_t bad = 0; bad < 3; bad++) {
+		std::vector<uint8_t> tp = { 11, 2, 1, im, cv };
+		for (int i = 0; i < 66; i++) tp.push_back((uint8_t)(17 + i * 5 + im + cv));
+		for (int i = 0; i < 66; i++) tp.push_back((uint8_t)(3 + i * 11 + im));
+		tp.push_back(bad);
+		emit(tp);
+	}
+	for (uint8_t core = 0; core < 4; core++) for (uint8_t bad = 0; bad < 5; bad++) for (uint8_t kk = 0; kk < 2; kk++) {
+		std::vector<uint8_t> tp = { 11, 2, 0, kk, core };
+		for (int i = 0; i < 180; i++) tp.push_back((uint8_t)(1 + i * 7 + core));
+		tp.push_back(bad);
+		emit(tp);
+	}
 	for (uint8_t var = 0; var < 4; var++) for (uint8_t bits = 0; bits < (th ? 6 : 3); bits++) for (uint8_t op = 0; op < 8; op++) emit({ 1, var, bits, 9, 9, 9, 9, 8, 8, 8, 8, 7, 7, 7, 7, 3, 1, 1, 1, 1, op, 2, 1 });
 	for (uint8_t im = 0; im < 4; im++) for (uint8_t op = 0; op < 4; op++) for (uint8_t v = 0; v < 3; v++) emit({ 3, im, op, (uint8_t)(v + im), 5, 5, 5, 5, v, 1, 2, 3, 4, v, 9, 9 });
 	for (uint8_t im = 0; im < 12; im++) for (uint8_t cv = 0; cv < 3; cv++) for (uint8_t op = 0; op < 3; op++) emit({ 4, im, cv, op, 7, 7, 7, (uint8_t)(7 + cv), 1, 2, 3, 4 });
